@@ -62,6 +62,7 @@
 #include "src/std.h"
 #include "regexp.h"
 #include "efuns/ed.h"
+#include "src/backend.h"	/* eval_cost */
 
 /*
  * The "internal use only" fields in regexp.h are present to pass info from
@@ -843,6 +844,15 @@ regoptail (char *p, char *val)
  */
 static char *reginput;		/* String-input pointer. */
 static char *regbol;		/* Beginning of input, for ^ check. */
+
+/*
+ * Backtracking can take a time exponential in the length of the string ("(a|aa)*b" against "aaaa...c"): one efun
+ * call that never comes back.  Matching is therefore charged against the evaluation cost, one tick for every
+ * REGEXP_STEPS_PER_TICK nodes regmatch() visits.  When the budget is used up the match fails, and the single tick
+ * left makes the next instruction of the evaluation raise the "Too long evaluation" error.
+ */
+#define REGEXP_STEPS_PER_TICK 100
+static int64_t regsteps;	/* node visits left for this regexec() */
 static char **regstartp;	/* Pointer to startp array. */
 static char **regendp;		/* Ditto for endp. */
 
@@ -856,8 +866,26 @@ static int regrepeat (char *);
 /*
  - regexec - match a regexp against a string
  */
+static int regexec_steps (register regexp * prog, register char *string);
+
 int
 regexec (register regexp * prog, register char *string)
+{
+  int64_t ticks = eval_cost > 1 ? eval_cost : 1;
+  int64_t budget = ticks > (INT64_MAX / REGEXP_STEPS_PER_TICK) ? INT64_MAX : ticks * REGEXP_STEPS_PER_TICK;
+  int64_t used;
+  int ret;
+
+  regsteps = budget;
+  ret = regexec_steps (prog, string);
+  used = (budget - (regsteps > 0 ? regsteps : 0)) / REGEXP_STEPS_PER_TICK;
+  if (eval_cost > 1)
+    eval_cost = (used >= eval_cost - 1) ? 1 : eval_cost - used;
+  return ret;
+}
+
+static int
+regexec_steps (register regexp * prog, register char *string)
 {
   register char *s;
 
@@ -966,6 +994,8 @@ regmatch (char *prog)
   scan = prog;
   while (scan != (char *) NULL)
     {
+      if (--regsteps < 0)
+        return (0);		/* the evaluation budget is used up: see regexec() */
       nxt = regnext (scan);
 
       switch (OP (scan))
